@@ -87,6 +87,9 @@ def source_variants():
     return out
 
 
+CUR = {}
+
+
 def apply_op(tree, op, scale):
     """returns (kind, value): kind 'tree' | 'text' | 'val'"""
     import cogent3
@@ -129,8 +132,29 @@ def apply_op(tree, op, scale):
         return "tree", deserialise_object(tree.to_json())
     if o == "dist":
         return "tree", tree
+    if o == "warm":
+        # leave whatever the distance machinery caches on the nodes
+        tree.subsets()
+        for m in ("rf", "matching"):
+            try:
+                tree.tree_distance(tree.copy(), method=m)
+            except Exception:  # noqa: BLE001
+                pass
+        try:
+            tree.lin_rajan_moret(tree.copy())
+        except Exception:  # noqa: BLE001
+            pass
+        tree.get_distances()
+        return "tree", tree
+    if o == "multifurcating":
+        return "tree", tree.multifurcating(op["k"])
     if o == "tree_distance":
-        other = build(op["other"], 1)
+        if op["other"] == "orig":
+            other = build(CUR["case"]["tree"], scale)
+        elif op["other"] == "self_fresh":
+            other = build(dump(tree, scale), scale)
+        else:
+            other = build(op["other"], 1)
         out = []
         for m in op["methods"]:
             try:
@@ -146,6 +170,7 @@ def run_case(case):
     if case.get("probe"):
         return source_variants()
     scale = case.get("scale", 1)
+    CUR["case"] = case
     tree = build(case["tree"], scale)
     # every distinct tree object seen so far: [object, dump, index of the step that produced it (-1 = the input)]
     seen = [[tree, dump(tree, scale), -1]]
